@@ -174,7 +174,81 @@ class FrontEndSpec(Spec):
                 'nontrivial': nontriv}
 
 
+PYTEST_LINE_RE = re.compile(r'^(\S+\.py)::(\S+) (PASSED|FAILED|SKIPPED|ERROR)', re.M)
+
+
+class SubprocessSpec(FrontEndSpec):
+    """the same comparison with two *real* processes (`python -m pytest --xdoctest -v` and `python -m xdoctest`):
+    binds the in-process runs above to the command lines the property talks about"""
+    title = 'pytest --xdoctest vs python -m xdoctest in real subprocesses'
+    batch = 1
+
+    def __init__(self, name, max_len, styles, options, max_cost=99):
+        FrontEndSpec.__init__(self, name, max_len)
+        self.styles = styles
+        self.options = options
+        self.max_cost = max_cost
+        self.rule = ('modules of <= %d doctests (cost <= %d) x styles %r x options %r, both front ends as subprocesses; '
+                     'non-trivial = module with at least two different outcomes' % (max_len, max_cost, styles, options))
+
+    def cost(self, ev):
+        return outcomes.kind_cost(ev)
+
+    def run_case(self, hist):
+        import subprocess
+        from xmc import core
+        kinds = list(hist)
+        atoms = []
+        n = 0
+        with harness.scratch_dir('c15s') as d:
+            tracefile = os.path.join(d, 'trace.txt')
+            src = outcomes.module_source(kinds, tracefile)
+            fname = 'mod15s.py'
+            with open(os.path.join(d, fname), 'w') as f:
+                f.write(src)
+            env = {k: v for k, v in os.environ.items() if not k.startswith(('XDOCTEST_', 'PYTEST_'))}
+            env['PYTHONPATH'] = os.path.join(core.REPO, 'src')
+            for style in self.styles:
+                for opt in self.options:
+                    n += 1
+                    tag = '%s/%s' % (style, opt)
+                    exp = {outcomes.fname(j) + ':0': outcomes.outcome(kd, opt) for j, kd in enumerate(kinds)}
+                    exp_p = {k: ('skipped' if v == 'disabled' else v) for k, v in exp.items()}
+                    exp_n = {k: v for k, v in exp.items() if v != 'disabled'}
+                    anyfail = any(v == 'failed' for v in exp.values())
+                    pa = [sys.executable, '-m', 'pytest', '--xdoctest', '--xdoctest-style=' + style, '-p', 'no:cacheprovider',
+                          '-v', '--rootdir', d, '-c', '/dev/null', fname] + (['--xdoctest-options=' + opt] if opt else [])
+                    na = [sys.executable, '-m', 'xdoctest', fname, 'all', '--style=' + style, '--verbose=1', '--nocolor'] + (
+                        ['--options=' + opt] if opt else [])
+                    rp = subprocess.run(pa, cwd=d, env=env, capture_output=True, text=True, timeout=300)
+                    rn = subprocess.run(na, cwd=d, env=env, capture_output=True, text=True, timeout=300)
+                    po = {m.group(2): {'PASSED': 'passed', 'FAILED': 'failed', 'SKIPPED': 'skipped', 'ERROR': 'error'}[m.group(3)]
+                          for m in PYTEST_LINE_RE.finditer(rp.stdout)}
+                    no = {}
+                    for m in NATIVE_RE.finditer(rn.stdout):
+                        no[m.group(2)] = {'SUCCESS': 'passed', 'FAILURE': 'failed', 'SKIPPED': 'skipped'}[m.group(1)]
+                    if po != exp_p:
+                        atoms.append({'sig': 'subprocess:pytest:outcomes', 'msg': '%s: %r expected %r\n%s' % (tag, po, exp_p, rp.stdout[-500:])})
+                    if no != exp_n:
+                        atoms.append({'sig': 'subprocess:native:outcomes', 'msg': '%s: %r expected %r\n%s' % (tag, no, exp_n, rn.stdout[-500:])})
+                    if (rp.returncode != 0) != anyfail and not (not exp_p or all(v == 'skipped' for v in exp_p.values())):
+                        atoms.append({'sig': 'subprocess:pytest:exit-status', 'msg': '%s: rc=%r anyfail=%s' % (tag, rp.returncode, anyfail)})
+                    if (rn.returncode != 0) != anyfail:
+                        atoms.append({'sig': 'subprocess:native:exit-status', 'msg': '%s: rc=%r anyfail=%s' % (tag, rn.returncode, anyfail)})
+                    if rn.returncode not in (0, 1) or 'Traceback (most recent call last)' in rn.stderr:
+                        atoms.append({'sig': 'subprocess:native:crash', 'msg': rn.stderr[-500:]})
+                    if 'INTERNALERROR' in rp.stdout + rp.stderr:
+                        atoms.append({'sig': 'subprocess:pytest:internal-error', 'msg': (rp.stdout + rp.stderr)[-600:]})
+        seen = set()
+        uniq = [a for a in atoms if not (a['sig'] in seen or seen.add(a['sig']))]
+        S = self.init()
+        for k in kinds:
+            S = self.step(S, k)
+        return {'atoms': uniq, 'n': n, 'outcome': '%d/%d/%d/%d' % S, 'case': {'kinds': kinds, 'module': src},
+                'nontrivial': int(len(set(outcomes.outcome(k) for k in kinds)) >= 2)}
+
+
 def specs(tier):
     if tier == 'thorough':
-        return [FrontEndSpec('modules<=3', 3)]
-    return [FrontEndSpec('modules<=2', 2)]
+        return [FrontEndSpec('modules<=3', 3), SubprocessSpec('subprocess<=2', 2, STYLES, OPTIONS)]
+    return [FrontEndSpec('modules<=2', 2), SubprocessSpec('subprocess<=2', 2, ['auto'], [None], max_cost=2)]
